@@ -185,6 +185,9 @@ const (
 	nCtxModes
 )
 
+// ctxManual: a cancellable context that nothing cancels by itself (the stepped runs cancel it from their schedule)
+const ctxManual = nCtxModes + 1
+
 var ctxNames = []string{"bg", "pre", "dlpast", "at-prep-recv", "at-prep-reply", "at-bind", "at-exec", "dl-during", "timer"}
 
 type liveCall struct {
@@ -1720,6 +1723,160 @@ func (rn *runner) startPrepareFails(kind, role int, batch bool) *startedRun {
 	return &startedRun{w: w, wg: wg, class: fmt.Sprintf("prepare-fails/%s/%s/%s", pfWords[kind], []string{"cold", "after-loss"}[role], kindw)}
 }
 
+// stepped: a run driven letter by letter from the server's side of the wire. EVERY PREPARE and every EXECUTE / BATCH is
+// held when it arrives - its answer is fixed at arrival from the run's fate strings (the P / X event carries it) but goes
+// out only when the schedule says so - and executions start and are cancelled when the schedule says so:
+//
+//	a  start a query of statement 0        b  start a query of statement 1 (cache of 1: evicts statement 0's entry)
+//	c  start a batch [statement 1, statement 0]
+//	k  cancel the oldest running execution whose context has not been cancelled yet
+//	p  let the oldest held PREPARE answer go    x  let the oldest held EXECUTE / BATCH answer go
+//
+// pf: per PREPARE in arrival order o(k) | e(rror frame) | g(arbled) | k(other kind); xf: per EXECUTE / BATCH with known ids
+// o(k) | e(rror) | f(orget everything, UNPREPARED) | u(UNPREPARED with a foreign id). After each letter the driver gets a
+// moment to come to rest (history unchanged for 300 µs, at most 5 ms - schedule shaping only). After the word everything
+// held goes out in arrival order and nothing is held any more; then the probes. This walks the placements of PREPARE
+// completions / failures, UNPREPARED answers, evictions and cancellations RELATIVE to the lookups of the other executions
+// that the timing of free-running goroutines only samples.
+func (rn *runner) stepped(capacity int, word, pf, xf string) {
+	r := rn.r
+	c := worldCfg{nhosts: 1, nconns: 1, capacity: capacity, stmts: []stmtDef{stmtWithCols(0, 1+r.Intn(2)), stmtWithCols(1, 1+r.Intn(2))}, stableID: r.Bool()}
+	w, err := newWorld(r, c)
+	if err != nil {
+		rn.out.Case("trace Z:no-session", "accept", "conc/no-session", true)
+		return
+	}
+	var pq, xq []chan struct{} // held answers, in arrival order (history lock)
+	free := false
+	np, nx := 0, 0
+	w.onPrepare = func(n *nodeState, stmt, serial int) (pfate, chan struct{}) {
+		f := pfate{}
+		if np < len(pf) {
+			switch pf[np] {
+			case 'e':
+				f = pfate{fail: true, kind: pfFrame}
+			case 'g':
+				f = pfate{fail: true, kind: pfUndecodable}
+			case 'k':
+				f = pfate{fail: true, kind: pfOtherKind}
+			}
+		}
+		np++
+		if free {
+			return f, nil
+		}
+		g := make(chan struct{})
+		pq = append(pq, g)
+		return f, g
+	}
+	w.onExec = func(n *nodeState, call int, known bool) (xfate, chan struct{}, bool) {
+		f := xfate{}
+		if known {
+			if nx < len(xf) {
+				f.kind = map[byte]int{'o': 0, 'e': 1, 'f': 2, 'u': 3}[xf[nx]]
+			}
+			nx++
+		}
+		if free {
+			return f, nil, true
+		}
+		g := make(chan struct{})
+		xq = append(xq, g)
+		return f, g, true
+	}
+	rest := func() {
+		last, same := -1, time.Now()
+		dl := time.Now().Add(5 * time.Millisecond)
+		for time.Now().Before(dl) {
+			w.h.mu.Lock()
+			n := len(w.h.evs)
+			w.h.mu.Unlock()
+			if n != last {
+				last, same = n, time.Now()
+			} else if time.Since(same) > 300*time.Microsecond {
+				return
+			}
+			time.Sleep(50 * time.Microsecond)
+		}
+	}
+	var wg sync.WaitGroup
+	start := func(cs *callSpec) {
+		cs.ctx = ctxManual
+		wg.Add(1)
+		go func() { defer wg.Done(); w.doCall(cs) }()
+	}
+	e0 := entrySpec{stmt: 0, nvals: w.stmts[0].ncols}
+	e1 := entrySpec{stmt: 1, nvals: w.stmts[1].ncols}
+	pop := func(q *[]chan struct{}) {
+		w.h.mu.Lock()
+		var g chan struct{}
+		if len(*q) > 0 {
+			g = (*q)[0]
+			*q = (*q)[1:]
+		}
+		w.h.mu.Unlock()
+		if g != nil {
+			close(g)
+		}
+	}
+	for i := 0; i < len(word); i++ {
+		switch word[i] {
+		case 'a':
+			start(&callSpec{host: 0, entries: []entrySpec{e0}})
+		case 'b':
+			start(&callSpec{host: 0, entries: []entrySpec{e1}})
+		case 'c':
+			start(&callSpec{host: 0, batch: true, entries: []entrySpec{e1, e0}})
+		case 'k':
+			w.h.mu.Lock()
+			var nums []int
+			for num, lc := range w.live {
+				if !lc.returned && !lc.kLogged {
+					nums = append(nums, num)
+				}
+			}
+			sort.Ints(nums)
+			if len(nums) > 0 {
+				w.cancelLocked(nums[0])
+			}
+			w.h.mu.Unlock()
+		case 'p':
+			pop(&pq)
+		case 'x':
+			pop(&xq)
+		}
+		rest()
+	}
+	w.h.mu.Lock()
+	free = true
+	held := append(append([]chan struct{}{}, pq...), xq...)
+	pq, xq = nil, nil
+	w.h.mu.Unlock()
+	for _, g := range held {
+		close(g)
+	}
+	rn.emit(w, &wg, fmt.Sprintf("stepped/cap%d/len%d", capacity, len(word)))
+}
+
+// steppedRandom: a random schedule word (starts with an execution; more releases than anything else) and random fates
+func (rn *runner) steppedRandom() {
+	r := rn.r
+	n := 4 + r.Intn(8)
+	word := []byte{"abc"[r.Intn(3)]}
+	for len(word) < n {
+		word = append(word, "aabcckppppxxx"[r.Intn(13)])
+	}
+	pf := make([]byte, 8)
+	for i := range pf {
+		pf[i] = "ooooegk"[r.Intn(7)]
+	}
+	xf := make([]byte, 10)
+	for i := range xf {
+		xf[i] = "ooooeffu"[r.Intn(8)]
+	}
+	rn.stepped([]int{1, 1, 2, 1000}[r.Intn(4)], string(word), string(pf), string(xf))
+}
+
 // connectionLost: the server closes every connection of the host (a node that goes away and comes back with its
 // prepared statements) instead of answering - role 0: the PREPARE of a cold statement, with 2..4 executions waiting
 // for it (the flight's Conn.exec fails: the c.exec error arm of prepareStatement, no timeout involved); role 1: the
@@ -2289,6 +2446,26 @@ func sessionTier(r *vh.Rng, out *vh.Out, outdir string, mult int) {
 				kind, role := kind, role
 				steps = append(steps, func() { rn.prepareFails(kind, role, false) })
 				steps = append(steps, func() { rn.prepareFails(kind, role, true) })
+			}
+		}
+	}
+	for i := 0; i < 80*mult; i++ {
+		steps = append(steps, rn.steppedRandom)
+	}
+	if mult > 1 {
+		// thorough: every word a·w, |w| = 4 over {a, b, k, p, x}, cache of 1 and unbounded, first PREPARE ok / failing, first
+		// EXECUTE answered UNPREPARED(forget) - 2 x 2 x 625 runs
+		letters := "abkpx"
+		for _, capacity := range []int{1, 1000} {
+			for _, pf := range []string{"oooooooo", "eooooooo"} {
+				for i := 0; i < 625; i++ {
+					wd := []byte{'a'}
+					for j, x := 0, i; j < 4; j, x = j+1, x/5 {
+						wd = append(wd, letters[x%5])
+					}
+					capacity, pf, word := capacity, pf, string(wd)
+					steps = append(steps, func() { rn.stepped(capacity, word, pf, "foooooooo") })
+				}
 			}
 		}
 	}
